@@ -8,6 +8,10 @@ spec column: for `md5`/`cmd5`/`clone`/`copy` the MD5 of the preimage of the sket
 the digest of what the real sketch holds), for `eq`/`req` "equal exactly when ksize and hashes
 agree".  A stale cache in the real code therefore shows as an oracle failure.
 
+`regs` cases run the register machine `regsStep` (any number of live sketches, copies next to their
+sources); the spec of an observation of register `i` is the digest of register `i`'s OWN current
+hashes, whatever it was copied from or to.
+
 The hashes a sequence contributes (`seq`, `prot`, `word` and their C API forms) are computed here
 from the documented k-mer specification `Spec/Kmers.lean` + `Model/Murmur.lean` (no generated
 tables); the machine op `addSeq` then only sees "these hashes in order, then possibly a failure". -/
@@ -17,6 +21,7 @@ structure DSt where
   ok : Bool := Md5.selfTest          -- RFC 1321 vectors, evaluated at start-up
   mol : Kmers.Mol := .dna
   p : Pair := .v ⟨MH.Vec.new 0 0 false, MH.Vec.new 0 0 false⟩
+  rs : List Sk := []             -- `regs` cases: the register file (non-empty exactly in those)
 
 def kvStr (ws : List String) (key : String) : Option String :=
   match ws.filterMap (fun w => match w.splitOn "=" with
@@ -128,22 +133,80 @@ def eqSpec (p : Pair) : String :=
   let (k2, m2) := p.subject true .md5
   if k1 == k2 && m1 == m2 then "true" else "false"
 
-def stepC13 (s : DSt) (ws : List String) : DSt × Resp :=
-  if !s.ok then (s, { model := "MD5-SELFTEST-FAILED" }) else
+/-- spec of an observation of register `i`: the digest of ITS OWN current (ksize, hashes) -/
+def regDigest (rs : List Sk) (i : Nat) : String :=
+  match rs[i]? with
+  | some s => Md5.hex (Md5.digest s.ksize s.mins)
+  | none => "-"
+
+def regIsTree (rs : List Sk) (i : Nat) : Bool :=
+  match rs[i]? with
+  | some s => s.isTree
+  | none => false
+
+/-- `regs` cases: `r <i> <j> <op> <args…>` (any op of the two-sketch machine on register `i` with
+    register `j` as operand), `req <i> <j>`, `dup <i> <j> c|sig|ffi`, `rserde <i> <j>`,
+    `rconv <i> <j> clone|ref|ffi`, `rconvi <i>` -/
+def stepRegs (s : DSt) (ws : List String) : DSt × Resp :=
+  let bad : DSt × Resp := (s, { model := "bad-op" })
+  let run (c : RCmd) (spec : List Sk → String) : DSt × Resp :=
+    let (rs', out) := regsStep s.rs c
+    ({ s with rs := rs' }, { model := showOut out, spec := match out with
+      | .badOp => "-"
+      | _ => spec rs' })
   match ws with
-  | "case" :: _ :: ty :: rest =>
-    let num := kvGet rest "num"; let mh := kvGet rest "mh"; let k := kvGet rest "k"
-    let ko := match kvStr rest "ok" with
-      | some v => v.toNat!
-      | none => k
-    -- the second sketch shares the ceiling and has its own size bound / abundance flag / ksize
-    let onum := match kvStr rest "onum" with
-      | some v => v.toNat!
-      | none => num
-    let track := kvGet rest "track" == 1; let otrack := kvGet rest "otrack" == 1
-    let p : Pair := if ty == "tree" then .t ⟨MH.Tree.new num mh track k, MH.Tree.new onum mh otrack ko⟩
-      else .v ⟨MH.Vec.new num mh track k, MH.Vec.new onum mh otrack ko⟩
-    ({ s with p := p, mol := molOf ((kvStr rest "mol").getD "dna") }, { model := "ok" })
+  | "r" :: i :: j :: opName :: args =>
+    match i.toNat?, j.toNat? with
+    | some i, some j =>
+      let resolved : Option String := match cName opName with
+        | some n => if regIsTree s.rs i then none else some n
+        | none => if opName == "add1" || opName == "setab" then none else some opName
+      let k := match s.rs[i]? with
+        | some x => x.ksize
+        | none => 0
+      match resolved.bind (fun n => parseOp s.mol k n args) with
+      | none => bad
+      | some op =>
+        let (rs', out) := regsStep s.rs (.on i j op)
+        let spec := match out, op with
+          | .digest _, .copy => regDigest rs' j
+          | .digest _, _ => regDigest rs' i
+          | _, _ => "-"
+        ({ s with rs := rs' }, { model := showOut out, spec := spec })
+    | _, _ => bad
+  | ["req", i, j] =>
+    match i.toNat?, j.toNat? with
+    | some i, some j =>
+      run (.eq i j) (fun rs' => match rs'[i]?, rs'[j]? with
+        | some a, some b => if a.ksize == b.ksize && a.mins == b.mins then "true" else "false"
+        | _, _ => "-")
+    | _, _ => bad
+  | ["dup", i, j, mode] =>
+    match i.toNat?, j.toNat? with
+    | some i, some j =>
+      if mode == "c" || mode == "sig" || (mode == "ffi" && !regIsTree s.rs i) then run (.dup i j) (fun _ => "-")
+      else bad
+    | _, _ => bad
+  | ["rserde", i, j] =>
+    match i.toNat?, j.toNat? with
+    | some i, some j => run (.serdeTo i j) (fun _ => "-")
+    | _, _ => bad
+  | ["rconv", i, j, mode] =>
+    match i.toNat?, j.toNat? with
+    | some i, some j =>
+      if mode == "clone" then run (.convTo i j true) (fun _ => "-")
+      else if mode == "ref" || mode == "ffi" then run (.convTo i j false) (fun _ => "-")
+      else bad
+    | _, _ => bad
+  | ["rconvi", i] =>
+    match i.toNat? with
+    | some i => run (.conv i) (fun _ => "-")
+    | none => bad
+  | _ => bad
+
+/-- the two-sketch cases -/
+def stepPair (s : DSt) (ws : List String) : DSt × Resp :=
+  match ws with
   | ["eq"] =>
     let (p', out) := s.p.step (.cmd .eq)
     ({ s with p := p' }, { model := showOut out, spec := eqSpec p' })
@@ -174,6 +237,34 @@ def stepC13 (s : DSt) (ws : List String) : DSt × Resp :=
         | .digest _ => let (k, m) := p'.subject onOther op; Md5.hex (Md5.digest k m)
         | _ => "-"
       ({ s with p := p' }, { model := showOut out, spec := spec })
+  | _ => (s, { model := "bad-op" })
+
+def stepC13 (s : DSt) (ws : List String) : DSt × Resp :=
+  if !s.ok then (s, { model := "MD5-SELFTEST-FAILED" }) else
+  match ws with
+  | "case" :: _ :: "regs" :: rest =>
+    let num := kvGet rest "num"; let mh := kvGet rest "mh"; let k := kvGet rest "k"
+    let descr := ((kvStr rest "regs").getD "").splitOn ","
+    let rs : List Sk := descr.map (fun d =>
+      let track := d.endsWith "1"
+      if d.startsWith "t" then Sk.t (MH.Tree.new num mh track k) else Sk.v (MH.Vec.new num mh track k))
+    ({ s with rs := rs, mol := molOf ((kvStr rest "mol").getD "dna") }, { model := "ok" })
+  | "case" :: _ :: ty :: rest =>
+    let num := kvGet rest "num"; let mh := kvGet rest "mh"; let k := kvGet rest "k"
+    let ko := match kvStr rest "ok" with
+      | some v => v.toNat!
+      | none => k
+    -- the second sketch shares the ceiling and has its own size bound / abundance flag / ksize
+    let onum := match kvStr rest "onum" with
+      | some v => v.toNat!
+      | none => num
+    let track := kvGet rest "track" == 1; let otrack := kvGet rest "otrack" == 1
+    let p : Pair := if ty == "tree" then .t ⟨MH.Tree.new num mh track k, MH.Tree.new onum mh otrack ko⟩
+      else .v ⟨MH.Vec.new num mh track k, MH.Vec.new onum mh otrack ko⟩
+    ({ s with p := p, mol := molOf ((kvStr rest "mol").getD "dna") }, { model := "ok" })
+  | w :: args =>
+    if !s.rs.isEmpty then stepRegs s (w :: args) else
+    stepPair s (w :: args)
   | _ => (s, { model := "bad-op" })
 
 def main : IO Unit := Driver.run ({} : DSt) stepC13
